@@ -61,7 +61,7 @@ func (t DataType) Bytes(endian binary.ByteOrder, value interface{}, length int64
 		t -= asetime.DurationFromDateTime(asetime.Epoch1900())
 
 		bs := make([]byte, length)
-		endian.PutUint32(bs, uint32(t.Days()))
+		endian.PutUint32(bs, uint32(floorDays(t)))
 		return bs, nil
 	case TIME, TIMEN:
 		dur := asetime.DurationFromTime(value.(time.Time))
@@ -74,7 +74,7 @@ func (t DataType) Bytes(endian binary.ByteOrder, value interface{}, length int64
 		t := asetime.DurationFromDateTime(value.(time.Time))
 		t -= asetime.DurationFromDateTime(asetime.Epoch1900())
 
-		days := t.Days()
+		days := floorDays(t)
 
 		bs := make([]byte, length)
 		switch length {
@@ -132,4 +132,15 @@ func (t DataType) Bytes(endian binary.ByteOrder, value interface{}, length int64
 	}
 
 	return bs, nil
+}
+
+// floorDays returns the number of whole days in d rounded toward negative
+// infinity, so that the remainder d - days*Day is a time of day in
+// [0, Day) for durations before the epoch as well.
+func floorDays(d asetime.ASEDuration) int {
+	days := d.Days()
+	if d < 0 && d%asetime.Day != 0 {
+		days--
+	}
+	return days
 }
